@@ -203,6 +203,13 @@ B64_SPELLINGS = {
 }
 
 
+def extra_bytes_variants(b):
+    """A binary field followed / preceded by bytes that belong to nothing: list of (label, bytes)."""
+    b = bytes(b)
+    return [("+00", b + b"\x00"), ("+9000", b + b"\x90\x00"), ("+ffffff", b + b"\xff\xff\xff"),
+            ("+0000 0000", b + bytes(4)), ("+itself", b + b), ("00+", b"\x00" + b), ("30+", b"\x30" + b)]
+
+
 def k1_hybrid(pub65):
     """hybrid SEC1 encoding (06 / 07 by the parity of y) of an uncompressed secp256k1 / P-256 point"""
     return bytes([6 + (pub65[-1] & 1)]) + pub65[1:]
@@ -503,6 +510,47 @@ def zero_value_docs(w):
                      lambda c, _w=what: short({"signature": X509View(c).signature.hex()}, _w), tries=1500)
         if der is not None:
             out.append(("zero:certificate-" + what, with_(w.x509_element(leaf, "platform_ca", der))))
+    return out
+
+
+def displaced_binding_docs(w, offsets=None):
+    """Correctly signed quotes / attestation-key report bodies whose 64-byte report data carries the
+    binding hash somewhere else than at its start: at every offset 1..32 (tail zero / non-zero),
+    split in two, preceded by another hash; and, as genuine counterparts, at offset 0 with zero,
+    non-zero and repeated-hash tails.  -> list of (label, doc)."""
+    base, _, meta = w.chain(2, "wide-top")
+    leaf = meta["x509"][-1][0]
+    out = []
+    filler = Rng(w.label + "-filler").nz_bytes(64)
+    for kind in ("quote", "attestation"):
+        if kind == "quote":
+            el = w.quote_element("quote", "attestation", "attkey")
+            off, signer = 368, "attkey"
+        else:
+            el = w.att_element("attestation", leaf, leaf)
+            off, signer = 320, leaf
+        msg0 = bytes.fromhex(el["message"])
+        h = msg0[off:off + 32]
+
+        def doc_with(report_data):
+            assert len(report_data) == 64
+            m = msg0[:off] + report_data + msg0[off + 64:]
+            ne = dict(el, message=m.hex(), signature=w.ec_sign(signer, m).hex())
+            d = clone(base)
+            for i, e in enumerate(d["elements"]):
+                if e["name"] == ne["name"]:
+                    d["elements"][i] = ne
+            return d
+        for k in (offsets or range(1, 33)):
+            out.append(("binding:%s-at-offset:zero-fill" % kind, doc_with(bytes(k) + h + bytes(32 - k))))
+            out.append(("binding:%s-at-offset:other-fill" % kind,
+                        doc_with(filler[:k] + h + filler[k:32])))
+        out.append(("binding:%s-split" % kind, doc_with(h[:16] + filler[:16] + h[16:] + bytes(16))))
+        out.append(("binding:%s-after-other-hash" % kind, doc_with(hashlib.sha256(h).digest() + h)))
+        out.append(("binding:%s-reversed" % kind, doc_with(h[::-1] + bytes(32))))
+        out.append(("genuine:binding:%s-tail-zero" % kind, doc_with(h + bytes(32))))
+        out.append(("genuine:binding:%s-tail-other" % kind, doc_with(h + filler[:32])))
+        out.append(("genuine:binding:%s-tail-repeats" % kind, doc_with(h + h)))
     return out
 
 
